@@ -2251,11 +2251,12 @@ class KmipEngine(object):
             for payload_attribute in payload.attributes:
                 name = payload_attribute.attribute_name.value
                 policy = self._attribute_policy
-                if name in policy.get_all_attribute_names():
-                    if not policy.is_attribute_supported(name):
-                        raise exceptions.InvalidField(
-                            "The {0} attribute is unsupported.".format(name)
-                        )
+                if name.startswith(('x-', 'y-')):
+                    continue
+                if not policy.is_attribute_supported(name):
+                    raise exceptions.InvalidField(
+                        "The {0} attribute is unsupported.".format(name)
+                    )
 
             managed_objects_filtered = []
 
